@@ -60,6 +60,63 @@ theorem gen_vec_into_boxed_slice (pa : Option Nat) (v : List Cell) (fx : Fx) :
     Gen.Fn.vec_into_boxed_slice pa v fx = ((intoBoxedSlice v fx).2, .ok (intoBoxedSlice v fx).1) := by
   simp [Gen.Fn.vec_into_boxed_slice, intoBoxedSlice, gen_box_from_raw, RsB.bind, scopeEnd_disarmed, Frame.manuallyDrop, Frame.arg, Frame.scopeEnd]
 
+/-- `Box<dyn Any + Send>::downcast` is the same function as the `dyn Any` one: a failed downcast hands the same box back
+(nothing dropped, nothing moved), a successful one re-wraps the same cells -/
+theorem gen_box_downcast_send (pa : Option Nat) (tag target : Nat) (b : List Cell) (fx : Fx) :
+    Gen.Fn.box_downcast_send pa tag target b fx = Gen.Fn.box_downcast pa tag target b fx := rfl
+
+theorem gen_box_downcast_send_model (pa : Option Nat) (tag target : Nat) (b : List Cell) (fx : Fx) :
+    Gen.Fn.box_downcast_send pa tag target b fx =
+      ((downcast tag target b fx).2.2,
+        .ok (if (downcast tag target b fx).1 then .ok (downcast tag target b fx).2.1 else .error (downcast tag target b fx).2.1)) := by
+  rw [gen_box_downcast_send, gen_box_downcast]
+
+/-- `Pin::from(box)`: the same box, no effect -/
+theorem gen_box_pin_from (pa : Option Nat) (b : List Cell) (fx : Fx) :
+    Gen.Fn.box_pin_from pa b fx = (fx, .ok b) := rfl
+
+/-- `Box::new_in(x, a)`: the box owns exactly `x`; no destructor ran and nothing was moved out -/
+theorem gen_box_new_in (pa : Option Nat) (x : List Cell) (fx : Fx) :
+    Gen.Fn.box_new_in pa x fx = (fx, .ok x) := rfl
+
+theorem gen_box_pin_in (pa : Option Nat) (x : List Cell) (fx : Fx) :
+    Gen.Fn.box_pin_in pa x fx = (fx, .ok x) := rfl
+
+theorem gen_box_from_iter_in (pa : Option Nat) (items : List Cell) (fx : Fx) :
+    Gen.Fn.box_from_iter_in pa items fx = ((fromIterIn items fx).2, .ok (fromIterIn items fx).1) := by
+  simp [Gen.Fn.box_from_iter_in, fromIterIn, gen_vec_into_boxed_slice, RsB.bind, RsB.vecExtend, Frame.arg]
+
+/-- `From<Vec<T>> for Box<[T]>` is `into_boxed_slice`: the box owns exactly the vector's elements; nothing is dropped -/
+theorem gen_vec_into_box_from (pa : Option Nat) (v : List Cell) (fx : Fx) :
+    Gen.Fn.vec_into_box_from pa v fx = ((intoBoxedSlice v fx).2, .ok (intoBoxedSlice v fx).1) := by
+  simp [Gen.Fn.vec_into_box_from, gen_vec_into_boxed_slice, RsB.bind, Frame.arg]
+
+/-- `Vec::into_bump_slice`: the arena's slice is exactly the vector's elements, no destructor runs and nothing is moved
+out (`mem::forget(self)`): the elements now live as long as the arena and are never dropped -/
+theorem gen_vec_into_bump_slice (pa : Option Nat) (v : List Cell) (fx : Fx) :
+    Gen.Fn.vec_into_bump_slice pa v fx = (fx, .ok v) := by
+  simp [Gen.Fn.vec_into_bump_slice, scopeEnd_disarmed, Frame.manuallyDrop, Frame.arg]
+
+theorem gen_vec_into_bump_slice_mut (pa : Option Nat) (v : List Cell) (fx : Fx) :
+    Gen.Fn.vec_into_bump_slice_mut pa v fx = (fx, .ok v) := by
+  simp [Gen.Fn.vec_into_bump_slice_mut, scopeEnd_disarmed, Frame.manuallyDrop, Frame.arg]
+
+/-- `Drop for Vec`: the drop glue of the `len` initialised elements, front to back — what the model's frame does when a
+vector handle goes out of scope armed -/
+theorem gen_vec_drop (pa : Option Nat) (v : List Cell) (fx : Fx) :
+    Gen.Fn.vec_drop pa v fx = ((boxDrop v pa fx).2, if (boxDrop v pa fx).1 then .panic else .ok ()) := by
+  simp only [Gen.Fn.vec_drop, boxDrop, Frame.scopeEnd, Frame.arg, List.take_length]
+  cases h : (dropGlue pa v 0 false fx).1 <;> simp [h]
+
+#print axioms gen_vec_into_box_from
+#print axioms gen_vec_into_bump_slice
+#print axioms gen_vec_into_bump_slice_mut
+#print axioms gen_vec_drop
+#print axioms gen_box_downcast_send_model
+#print axioms gen_box_pin_from
+#print axioms gen_box_new_in
+#print axioms gen_box_pin_in
+#print axioms gen_box_from_iter_in
 #print axioms gen_box_into_raw
 #print axioms gen_box_from_raw
 #print axioms gen_box_into_inner
